@@ -437,6 +437,13 @@ class Frame:
                 nc.kind = "dict"
                 nc.local = True
                 p.env[tg.value.id] = nc
+            elif isinstance(tg.value, ast.Name) and isinstance(cont, Sym) and (
+                    (cont.head in ("call:dict", "call:copy") and len(cont.args) == 1) or cont.head == "dict") and not isinstance(tg.slice, ast.Slice):
+                # item store into a local copy of a dictionary: the copy now also holds key -> value
+                r_ = self.expr(tg.slice, p.fork())
+                kt = r_[0][1] if len(r_) == 1 else Opaque("key")
+                base = cont.args if cont.head == "dict" else (Sym("dstar", (cont.args[0],)),)
+                p.env[tg.value.id] = Sym("dict", tuple(base) + (Sym("item", (kt, t)),))
             if cont is None and isinstance(tg.value, (ast.Name, ast.Attribute)):
                 r_ = self.expr(tg.value, p.fork())
                 cont = r_[0][1] if len(r_) == 1 else None
@@ -1179,11 +1186,21 @@ class Frame:
         if not e.keys:
             return [(p, Sym("dict{}"))]
         out = []
-        vals = list(e.values)
-        for q, ts in self.seq(vals, p):
+        exprs = []
+        for k, v in zip(e.keys, e.values):
+            if k is not None:
+                exprs.append(k)
+            exprs.append(v)
+        for q, ts in self.seq(exprs, p):
             items = []
-            for k, t in zip(e.keys, ts):
-                items.append(Sym("dstar", (t,)) if k is None else Sym("item:" + ast.unparse(k), (t,)))
+            i = 0
+            for k in e.keys:
+                if k is None:
+                    items.append(Sym("dstar", (ts[i],)))
+                    i += 1
+                else:
+                    items.append(Sym("item", (ts[i], ts[i + 1])))
+                    i += 2
             out.append((q, Sym("dict", tuple(items))))
         return out
 
